@@ -17,8 +17,10 @@ def selftests(prop, mod):
     """Sensitivity self-test (thorough tier): every seeded change recorded
     for this property under /verif/seeded is applied to a scratch copy of
     /repo's CURRENT rig/ (outside /repo and /verif, removed at once) and the
-    rules are re-run on it: they must report a violation.  Shows that
-    'silent on the real tree' is meaningful on this tree."""
+    rules are re-run on it: a property-breaking change must be reported as a
+    violation, a behaviour-preserving refactoring must leave the check
+    silent.  Shows that 'silent on the real tree' is meaningful on this tree
+    and that the rules do not depend on the spelling of the code."""
     import json
     import shutil
     import subprocess
@@ -34,9 +36,9 @@ def selftests(prop, mod):
             meta = json.load(open(os.path.join(d, "meta.json")))
         except Exception:
             continue
-        if meta.get("property") != prop or \
-                meta.get("kind", "breaking") != "breaking":
+        if meta.get("property") != prop:
             continue
+        kind = meta.get("kind", "breaking")
         tmp = tempfile.mkdtemp(prefix="rv_self_")
         try:
             shutil.copytree(os.path.join(REPO, "rig"),
@@ -47,7 +49,7 @@ def selftests(prop, mod):
                                 os.path.join(d, "patch.diff")], cwd="/",
                                capture_output=True, text=True)
             if r.returncode != 0:
-                out.append((sid + " (patch no longer applies)", None))
+                out.append((sid + " (patch no longer applies)", None, kind))
                 continue
             rep = Report(prop, "thorough", quiet=True)
             try:
@@ -57,7 +59,8 @@ def selftests(prop, mod):
             rules = sorted(set(f.rule for f in getattr(
                 rep, "new_findings", [])))
             out.append(("%s -> %s" % (sid, ",".join(rules) or "exit %s" %
-                                       rc), rc == 1))
+                                       rc),
+                        rc == 1 if kind == "breaking" else rc == 0, kind))
         finally:
             shutil.rmtree(tmp, ignore_errors=True)
     return out
@@ -68,8 +71,8 @@ def run(prop, tier):
     st = selftests(prop, mod) if tier == "thorough" else []
     program = Program()
     report = Report(prop, tier)
-    report.selftests = [(n, f) for n, f in st if f is not None]
-    for n, f in st:
+    report.selftests = [(n, f, k) for n, f, k in st if f is not None]
+    for n, f, k in st:
         if f is None:
             report.note("self-test skipped: " + n)
     if tier == "thorough" and hasattr(mod, "thorough"):
